@@ -114,8 +114,10 @@ def decimalSpecial (s : Str) : Bool :=
 def outOfDomain (k : BaseKind) (s : Str) : Bool :=
   match k with
   | .dt | .tm | .dtm | .tn => s.any (fun c => c.toNat > 127)
-  | .si => s.any (fun c => c == '_' || (c.toNat > 127 && !isWS c))
-  | .nm => s.any (fun c => c == '_' || (c.toNat > 127 && !isWS c)) || decimalSpecial s
+  | .si => s.any (fun c => c.toNat > 127 && !isWS c) ||
+      (s.contains '_' && (Num.parseInt (s.filter (· != '_'))).isSome)
+  | .nm => s.any (fun c => c.toNat > 127 && !isWS c) || decimalSpecial (s.filter (· != '_')) ||
+      (s.contains '_' && (Num.parseDecimal (s.filter (· != '_'))).isSome)
   | _ => false
 
 /-- one factory call `factories[datatype](value, …)` before the TOLERANT fallback;
